@@ -377,7 +377,13 @@ case("C16", "C16-b-ifform", "benign", "macos alias written as an if statement",
 
 # ---------------------------------------------------------------- second round of seeded changes (generated from the matrix)
 case('C01', "C01-seed3", "mutant", 'seeded: types/blob BReader gains an io.WriterTo implementation so io.Copy can stream a blob straight from the underlyi',
-     patch="seeded/C01-3/patch.diff", expect=[('C01.R2', 'Read', 'digest test on every EOF path')])
+     patch="seeded/C01-3/patch.diff", expect=[('C01.R8', 'WriteTo', 'verification result returned')])
+case("C01", "C01-b-finish", "benign", "the whole EOF handling of Read (test and comparisons) moved into a method that Read returns",
+     patch="selftest/variants/C01-b-finish.diff")
+case("C01", "C01-m-finish", "mutant", "EOF handling in a method, digest mismatch error built but not returned",
+     patch="selftest/variants/C01-m-finish.diff", expect=[("C01.R2", "Read", "mismatch returns a fresh error")])
+case("C01", "C01-b-writeto", "benign", "the same WriterTo written correctly: only an error identical to io.EOF is turned into nil",
+     patch="selftest/variants/C01-b-writeto.diff")
 case('C01', "C01-seed4", "mutant", 'seeded: scheme/ocidir BlobGet and BlobHead duplicated the validate-digest / build-path / open / stat sequence; the cha',
      patch="seeded/C01-4/patch.diff", expect=[('C01.R1', 'BlobGet', 'blob.NewReader')])
 case('C02', "C02-seed3", "mutant", 'seeded: image.go imageExportDescriptor (used by RegClient.ImageExport): the two places that wrote a fetched manifest i',
@@ -460,6 +466,18 @@ _CROSS = {
     "C04-b1": ["C03", "C09", "C14"], "C04-b3": ["C03", "C08", "C09", "C14"], "C03-b1": ["C04", "C09", "C14"],
     "C03-b2": ["C04"], "C03-b3": ["C14"], "C14-b3": ["C03"], "C20-b4": ["C09"],
 }
+_CROSS2 = {}
+for _f in sorted(_glob.glob("/verif/selftest/variants/b2/C*-b2-*.diff")):
+    _name = os.path.basename(_f)[:-5]
+    _own = _name.split("-")[0]
+    _desc = ""
+    try:
+        _desc = (json.load(open(_f[:-5] + ".json")).get("summary") or "")[:140].replace("\n", " ")
+    except Exception:
+        pass
+    for _p in [_own] + _CROSS2.get(_name, []):
+        case(_p, _p + "-agent-" + _name, "benign", "agent refactoring (round 2) " + _name + ": " + _desc, patch="selftest/variants/b2/" + _name + ".diff")
+
 for _f in sorted(_glob.glob("/verif/selftest/variants/b/C*-b*.diff")):
     _name = os.path.basename(_f)[:-5]
     _own = _name.split("-")[0]
